@@ -41,6 +41,15 @@ def handle (line : String) : String :=
     match (hs.splitOn ",").mapM unhexChars with
     | some fl => "ok " ++ hexList (Shell.parseBuildTags fl)
     | none => "bad-op"
+  | ["cc", _app, e1, e2, e3, l1, l2, l3, l4] =>
+    let bytesOf (h : String) : Option (List Nat) := (unhex h).map (·.map (·.toNat))
+    let listOf (h : String) : Option (List (List Nat)) := if h = "." then some [] else (h.splitOn ",").mapM bytesOf
+    let showL (l : List (List Nat)) : String :=
+      if l.isEmpty then "." else " ".intercalate (l.map fun f => hex (f.map UInt8.ofNat))
+    match bytesOf e1, bytesOf e2, bytesOf e3, listOf l1, listOf l2, listOf l3, listOf l4 with
+    | some e1, some e2, some e3, some l1, some l2, some l3, some l4 =>
+      "ok " ++ showL (Shell.compileArgv e1 e2 l1 l2 l4) ++ " | " ++ showL (Shell.linkArgv e1 e3 l3 l4)
+    | _, _, _, _, _, _, _ => "bad-op"
   | ["check", hs, es] =>
     let fl := if hs = "." then some [] else (hs.splitOn ",").mapM unhexChars
     match fl, (es.splitOn ",").mapM unhexChars with
